@@ -163,6 +163,15 @@ pub fn run_obs(args: &[String]) -> i32 {
                 let mut ao = serde_json::Map::new();
                 ao.insert("why".into(), alt["why"].clone());
                 ao.insert("dec".into(), obs_owned(&ab));
+                {
+                    // the same alternative followed by one more byte
+                    let mut tb = ab.clone();
+                    tb.push(0);
+                    let r = catch(|| erltf::decode(&tb).is_ok());
+                    let r2 = catch(|| erltf::decoder::decode_with_trailing(&tb).map(|(_, rest)| rest.len()));
+                    ao.insert("trail_accepted".into(), json!(r.clone().unwrap_or(false) || r.is_err()));
+                    ao.insert("trail_rest".into(), match r2 { Ok(Ok(n)) => json!(n), _ => Value::Null });
+                }
                 if do_borrowed {
                     ao.insert("bor".into(), obs_borrowed(&ab));
                 }
